@@ -242,6 +242,15 @@ def main() -> int:  # noqa: C901, PLR0915
             tracked["line"] = float(fm.compute_line_coverage(merged, subject_properties))
             tracked["covered_lines"] = sorted(subject_properties.lineids_to_linenos(merged.covered_line_ids))
             tracked["n_results"] = len(results)
+            # independent counts straight from the merged trace and the registries
+            preds = list(subject_properties.existing_predicates)
+            bl = list(subject_properties.branch_less_code_objects)
+            tracked["branch_existing"] = 2 * len(preds) + len(bl)
+            tracked["branch_covered"] = (sum(1 for p in preds if merged.true_distances.get(p) == 0.0)
+                                         + sum(1 for p in preds if merged.false_distances.get(p) == 0.0)
+                                         + sum(1 for c in bl if c in merged.executed_code_objects))
+            tracked["line_existing"] = len(subject_properties.existing_lines)
+            tracked["line_covered"] = len(set(merged.covered_line_ids) & set(subject_properties.existing_lines))
         except Exception as ex:  # noqa: BLE001
             tracked["error"] = f"{type(ex).__name__}: {ex}"
         emit("Report", module=rep.module, branch_coverage=rep.branch_coverage, line_coverage=rep.line_coverage,
@@ -250,6 +259,21 @@ def main() -> int:  # noqa: C901, PLR0915
         return rep
 
     gen.get_coverage_report = get_coverage_report
+
+    tracked_vars: dict[str, object] = {}
+    orig_tov = stat.track_output_variable
+
+    def track_output_variable(variable, value):
+        try:
+            name = variable.name
+            if "Coverage" in name and isinstance(value, (int, float)):
+                tracked_vars[name] = float(value)
+        except Exception:  # noqa: BLE001
+            pass
+        return orig_tov(variable, value)
+
+    stat.track_output_variable = track_output_variable
+    gen.stat.track_output_variable = track_output_variable
 
     # ------------------------------------------------------------------ run
     from pynguin import cli  # noqa: PLC0415
@@ -276,6 +300,7 @@ def main() -> int:  # noqa: C901, PLR0915
         rc = cli.main(argv)
     except SystemExit as ex:
         rc = int(ex.code or 0) + 1000
+    emit("Stats", tracked=tracked_vars)
     emit("Return", rc=int(rc), wall_s=round(time.time() - t0, 2))
     return 0
 
